@@ -276,4 +276,81 @@ def locateRec (cfg : Cfg) (rep : Rep) (x : List Frag) (max : Int) (d : JV) : Lis
 /-- **`Expr.Walk(data, cb)`** -/
 def walkRecM (cfg : Cfg) (rep : Rep) (x : List Frag) (d : JV) : List (Path × JV) := walkRec cfg rep x d
 
+/-! # GetNodes as a machine
+
+`Expr.GetNodes` (jp/node.go:41-330) is one more copy of Get's loop, on `[]gen.Node`. Its text differs from get.go in
+the selections (`Nodes.last`/`Nodes.inner`: gen-only arms, the union and filter branches) and in ONE place of the
+control flow: the first pass of a descent has cases for `gen.Object` and `gen.Array` only — a leaf handed to a descent
+is dropped with the marker untouched, where Get's `default:` arm puts it back for the second pass. `Nodes.step` is
+Get's round with exactly that exception; `nodesMach` runs it. Proved equal to the skeleton model `nodesM` in
+Props/C11.lean (`C11_nodes_machine`). -/
+
+namespace Nodes
+
+def lastV (cfg : Cfg) (f : Frag) (v : JV) : List JV := (last cfg f v).map (·.2)
+def pushV (cfg : Cfg) (f : Frag) (v : JV) : List JV := ((inner cfg f v).map (·.2)).reverse
+
+/-- is this round the first pass of a descent on an element node.go has no case for -/
+def dropsLeaf (x : List Frag) (fr : Get.Frame) (d : JV) : Bool :=
+  match x.drop fr.fi with
+  | .descent :: _ => !fr.dflag && !isContainer d
+  | _ => false
+
+/-- one round of GetNodes' loop -/
+def step (sib : Bool) (L P : Frag → JV → List JV) (x : List Frag) (fr : Get.Frame) (d : JV) (rest : List JV) :
+    List JV × List Get.Frame :=
+  if dropsLeaf x fr d then ([], fr.rest fr.dflag rest) else Get.step sib L P x fr d rest
+
+def run (sib : Bool) (L P : Frag → JV → List JV) (x : List Frag) : Nat → List Get.Frame → List JV → List JV
+  | 0, _, acc => acc
+  | _ + 1, [], acc => acc
+  | n + 1, fr :: st, acc =>
+    match fr.items with
+    | [] => run sib L P x n st acc
+    | d :: rest => run sib L P x n ((step sib L P x fr d rest).2 ++ st) (acc ++ (step sib L P x fr d rest).1)
+
+end Nodes
+
+/-- **`Expr.GetNodes` as a machine** -/
+def nodesMach (cfg : Cfg) (x : List Frag) (d : JV) : List JV :=
+  match x with
+  | [] => [d]
+  | _ => Nodes.run cfg.descentSiblings (Nodes.lastV cfg) (Nodes.pushV cfg) x
+           (Get.cost (Nodes.pushV cfg) x d + 1) [⟨0, false, false, [d]⟩] []
+
+/-! # FirstNode as a machine
+
+`Expr.FirstNode` (jp/node.go:332-640) is to GetNodes what FirstFound is to Get: the last-fragment branches return
+their first element. `FirstNode.step` is FirstFound's round (`First.step`) with node.go's one difference — the leaf
+handed to a descent is dropped — over `FirstNode.last` (what is returned) and `Nodes.inner` (what is pushed). -/
+
+namespace FirstNode
+
+def ret (cfg : Cfg) (f : Frag) (d : JV) : Option JV := ((last cfg f d).map (·.2)).head?
+
+def step (sib : Bool) (R : Frag → JV → Option JV) (P : Frag → JV → List JV) (x : List Frag)
+    (fr : Get.Frame) (d : JV) (rest : List JV) : First.Out :=
+  if Nodes.dropsLeaf x fr d then .go (fr.rest fr.dflag rest) else First.step sib R P x fr d rest
+
+def run (sib : Bool) (R : Frag → JV → Option JV) (P : Frag → JV → List JV) (x : List Frag) :
+    Nat → List Get.Frame → Option JV
+  | 0, _ => none
+  | _ + 1, [] => none
+  | n + 1, fr :: st =>
+    match fr.items with
+    | [] => run sib R P x n st
+    | d :: rest =>
+      match step sib R P x fr d rest with
+      | .ret v => some v
+      | .go fs => run sib R P x n (fs ++ st)
+
+end FirstNode
+
+/-- **`Expr.FirstNode` as a machine** -/
+def firstNodeMach (cfg : Cfg) (x : List Frag) (d : JV) : Option JV :=
+  match x with
+  | [] => some d
+  | _ => FirstNode.run cfg.descentSiblings (FirstNode.ret cfg) (Nodes.pushV cfg) x
+           (Get.cost (Nodes.pushV cfg) x d + 1) [⟨0, false, false, [d]⟩]
+
 end OjgVerif.JPath
